@@ -251,7 +251,7 @@ fn child(from: usize, to: usize) {
         MAX_SINGLE.store(0, Ordering::SeqCst);
         PEAK.store(LIVE.load(Ordering::SeqCst), Ordering::SeqCst);
         let live0 = LIVE.load(Ordering::SeqCst);
-        let tm = Timing { quiet_ms: 150, deadline_ms: 6000, seg_pause_us: 0 };
+        let tm = Timing { quiet_ms: 250, deadline_ms: 12000, seg_pause_us: 0 };
         let line = if i % 14 == 13 { rstbody_case(i, &mut rng) } else { run_case(i as u64, &c, &tmpdir, &tm) };
         let maxalloc = MAX_SINGLE.load(Ordering::SeqCst);
         let peak = PEAK.load(Ordering::SeqCst).saturating_sub(live0);
